@@ -104,6 +104,37 @@ func drawShift(t *rapid.T, size int, label string) int {
 	return rapid.SampledFrom(shiftList(size)).Draw(t, label)
 }
 
+// drawRtShift: the shift of an object about to be serialised (or any state-machine shift).
+func drawRtShift(t *rapid.T, size int, label string) int {
+	if rapid.IntRange(0, 2).Draw(t, label+"rt") == 0 {
+		return drawShift(t, size, label)
+	}
+	return rapid.SampledFrom(rtShiftList(size)).Draw(t, label)
+}
+
+var sizesNotPow2 = []int{3, 5, 6, 7, 12, 13, 17, 31, 33}
+
+// drawInit draws the size and the initial object: a power of two (any form on rho*size entries), or a size that is
+// not one - then the bare coefficient vector (Canonical/Regular, size entries) or any form on the next power of two
+// (times rho) declared with SetSize(size).
+func drawInit(t *rapid.T, maxLg int, label string) (size int, f inst.IopForm, n0 int, classes []string) {
+	f = rapid.SampledFrom(allForms).Draw(t, label+"form")
+	rho := rapid.SampledFrom([]int{1, 1, 1, 2, 4}).Draw(t, label+"rho0")
+	if rapid.IntRange(0, 2).Draw(t, label+"notpow2") == 0 {
+		size = rapid.SampledFrom(sizesNotPow2).Draw(t, label+"size")
+		classes = append(classes, "size_not_pow2")
+		if rapid.IntRange(0, 2).Draw(t, label+"bare") == 0 {
+			return size, canReg, size, append(classes, "init_bare_vector")
+		}
+		return size, f, np2(size) * rho, append(classes, "init_extended")
+	}
+	size = 1 << rapid.IntRange(0, maxLg).Draw(t, label+"lg")
+	if rho > 1 {
+		classes = append(classes, "init_extended")
+	}
+	return size, f, size * rho, classes
+}
+
 func drawCosetShift(t *rapid.T, c *cx, maxN int) *big.Int {
 	return altShift(c, rapid.IntRange(0, 1).Draw(t, "cosetshift"), maxN)
 }
